@@ -1,6 +1,7 @@
 """TRANSLATOR: the SELECT side of sqlobject/inheritance/__init__.py and iteration.py -> PyInhSel blocks.
 
-`InheritableSelectResults.__init__` and `InheritableSQLObject.selectBy` (the `ENABLED` entries of `TARGETS`; the other
+`InheritableSelectResults.__init__`, `InheritableSQLObject.select` (with its nested functions), `selectBy` and
+`_findAlternateID` (the `ENABLED` entries of `TARGETS`; the other
 entries are not translated yet) are translated statement by statement into the deep embedding of
 `lean/SqlObjVerif/Model/PyInhSel.lean`.  Anything outside the fragment raises ExtractError.  Conventions (those of
 pyinherit.py, extended):
@@ -35,6 +36,7 @@ EXC_CLS = {'TypeError': '.typeError', 'KeyError': '.keyError', 'AttributeError':
 # (file, class, function, lean name)
 TARGETS = [
     (REL, 'InheritableSelectResults', '__init__', 'selInit'),
+    (REL, 'InheritableSQLObject', 'select', 'select'),
     (REL, 'InheritableSQLObject', 'selectBy', 'selectBy'),
     (REL, 'InheritableSQLObject', '_findAlternateID', 'findAlternateID'),
     (REL_IT, 'InheritableIteration', 'next', 'iterNext'),
@@ -82,6 +84,8 @@ def _upd_comp(n):
 
 
 class Func(object):
+    allow_nested = True
+
     def __init__(self, cls, fn, lname):
         self.cls = cls
         self.fn = fn
@@ -89,12 +93,14 @@ class Func(object):
         self.lname = lname
         a = fn.args
         decos = [ast.unparse(d) for d in fn.decorator_list]
-        if a.kwonlyargs or a.posonlyargs or a.vararg or not a.args or decos not in ([], ['classmethod']):
+        if a.kwonlyargs or a.posonlyargs or not a.args or decos not in ([], ['classmethod']):
             raise ExtractError('unexpected signature of %s' % fn.name)
         self.me = a.args[0].arg
         if self.me != ('cls' if decos else 'self'):
             raise ExtractError('%s: first parameter is %s' % (fn.name, self.me))
         self.params = [x.arg for x in a.args[1:]]
+        if a.vararg:
+            self.params.append(a.vararg.arg)
         self.kwparam = a.kwarg.arg if a.kwarg else None
         if self.kwparam:
             self.params.append(self.kwparam)
@@ -103,10 +109,52 @@ class Func(object):
         self.loops = []
         self.conds = {}
         self.elses = {}
+        self.nested = {}       # name -> FunctionDef of a nested function
+        self.caps = []         # locals of this function the nested functions read
+        self.procs = []        # (name, NestedFunc)
         body = strip_doc(fn.body)
         self._collect(body)
+        self._nested_setup(body)
         self.defaults = [self.expr(d) for d in a.defaults]
         self.body = self.block(body)
+        for name, node in self.nested.items():
+            self.procs.append((name, NestedFunc(self, node)))
+
+    def _nested_setup(self, body):
+        if not self.nested:
+            return
+        first = min(n.lineno for n in self.nested.values())
+        used = set()
+        for node in self.nested.values():
+            a = node.args
+            if a.kwonlyargs or a.posonlyargs or a.vararg or a.kwarg or a.defaults or len(a.args) != 1 \
+                    or node.decorator_list:
+                self.fail('nested function %s: signature outside the fragment' % node.name)
+            own = {a.args[0].arg}
+            for x in ast.walk(node):
+                if isinstance(x, ast.Name) and isinstance(x.ctx, ast.Store):
+                    own.add(x.id)
+                if isinstance(x, (ast.Global, ast.Nonlocal)):
+                    self.fail('nested function %s: global / nonlocal' % node.name)
+            for x in ast.walk(node):
+                if isinstance(x, ast.Name) and isinstance(x.ctx, ast.Load) and x.id not in own \
+                        and x.id in self.vars:
+                    used.add(x.id)
+                if isinstance(x, ast.Name) and x.id == self.me:
+                    self.fail('nested function %s reads %s' % (node.name, self.me))
+        self.caps = [v for v in self.vars if v in used]
+        # the captured locals are bound before the nested functions are defined and never again
+        for sub in body:
+            for x in ast.walk(sub):
+                if isinstance(x, ast.Name) and isinstance(x.ctx, (ast.Store, ast.Del)) and x.id in used \
+                        and getattr(x, 'lineno', 0) >= first and not self._inside_nested(x):
+                    self.fail('captured local %s is rebound after the nested functions are defined' % x.id)
+
+    def _inside_nested(self, x):
+        for node in self.nested.values():
+            if node.lineno <= x.lineno <= node.end_lineno:
+                return True
+        return False
 
     def fail(self, what, n=None):
         raise ExtractError('%s: %s%s' % (self.name, what, (': ' + ast.unparse(n).split('\n')[0]) if n is not None else ''))
@@ -200,9 +248,13 @@ class Func(object):
                 s.generic_visit(n)
 
             def visit_FunctionDef(s, n):
+                if m.allow_nested and n.name not in m.vars and n.name not in m.nested:
+                    m.nested[n.name] = n
+                    return
                 m.fail('nested function')
 
-            visit_Lambda = visit_FunctionDef
+            def visit_Lambda(s, n):
+                m.fail('lambda')
 
             def visit_ListComp(s, n):
                 m.fail('comprehension / generator expression', n)
@@ -370,6 +422,8 @@ class Func(object):
             return '(.tuple1 %s)' % self.expr(n.elts[0])
         if isinstance(n, ast.List) and not n.elts:
             return '.emptyList'
+        if isinstance(n, ast.List) and len(n.elts) == 1 and not isinstance(n.elts[0], ast.Starred):
+            return '(.tuple1 %s)' % self.expr(n.elts[0])
         if isinstance(n, ast.Dict) and not n.keys:
             return '.emptyDict'
         if isinstance(n, ast.BoolOp) and isinstance(n.op, ast.Or):
@@ -482,7 +536,12 @@ class Func(object):
     def call_stmt(self, target, c):
         """-> (statements that run first, the call statement) for an effectful call `[target =] c`"""
         f = c.func
-        if any(isinstance(a, ast.Starred) for a in c.args):
+        vstar = None
+        pargs = list(c.args)
+        if pargs and isinstance(pargs[-1], ast.Starred) and isinstance(pargs[-1].value, ast.Name):
+            vstar = self.expr(pargs[-1].value)
+            pargs = pargs[:-1]
+        if any(isinstance(a, ast.Starred) for a in pargs):
             self.fail('call with * outside the fragment', c)
         stars = [k.value for k in c.keywords if k.arg is None]
         kws = [k for k in c.keywords if k.arg is not None]
@@ -490,15 +549,22 @@ class Func(object):
             self.fail('** must be the last argument, once', c)
         star = 'none'
         if stars:
-            if not isinstance(stars[0], ast.Name):
+            if isinstance(stars[0], ast.Dict) and len(stars[0].keys) == 1 and stars[0].keys[0] is not None:
+                # `**{k: v}`: the one-entry dict value
+                star = '(some (.tuple1 (.pair %s %s)))' % (self.expr(stars[0].keys[0]), self.expr(stars[0].values[0]))
+            elif not isinstance(stars[0], ast.Name):
                 self.fail('** of something that is not a local', c)
-            star = '(some %s)' % self.expr(stars[0])
+            else:
+                star = '(some %s)' % self.expr(stars[0])
         kwn = _strs([k.arg for k in kws])
         pre = []
         if self._is_super(f):
             sargs = f.value.args
             if f.value.keywords or [ast.unparse(a) for a in sargs] != [self.cls.name, self.me]:
                 self.fail('super() of something else', c)
+            if vstar:
+                return pre, '(.superCallV %s %s %s %s %s %s %s)' % (target, lean_str(f.attr), self.exprs(pargs), vstar,
+                                                                    kwn, self.exprs([k.value for k in kws]), star)
             return pre, '(.superCall %s %s %s %s %s %s)' % (target, lean_str(f.attr), self.exprs(c.args), kwn,
                                                             self.exprs([k.value for k in kws]), star)
         if isinstance(f, ast.Attribute) and not self._glob(f):
@@ -507,8 +573,13 @@ class Func(object):
                 pre, r = self.hoist(recv)
             else:
                 r = self.expr(recv)
+            if vstar:
+                return pre, '(.callV %s %s %s %s %s %s %s %s)' % (target, r, lean_str(f.attr), self.exprs(pargs), vstar,
+                                                                  kwn, self.exprs([k.value for k in kws]), star)
             return pre, '(.call %s %s %s %s %s %s %s)' % (target, r, lean_str(f.attr), self.exprs(c.args), kwn,
                                                           self.exprs([k.value for k in kws]), star)
+        if vstar:
+            self.fail('call with * outside the fragment', c)
         if self._glob(f) or (isinstance(f, ast.Name) and f.id in self.vars) or (
                 isinstance(f, ast.Attribute) and isinstance(f.value, ast.Name)):
             return pre, '(.callFn %s %s %s %s %s %s)' % (target, self.expr(f), self.exprs(c.args), kwn,
@@ -572,10 +643,51 @@ class Func(object):
                     return True
         return False
 
+    def proc_call(self, target, c):
+        """a call `f(arg)` of a nested function -> statement"""
+        f = c.func
+        if c.keywords or len(c.args) != 1:
+            self.fail('call of a nested function outside the fragment', c)
+        a = c.args[0]
+        if isinstance(a, ast.Name) and a.id in self.vars:
+            place = '(.pvar %d)' % self.var(a.id)
+        elif isinstance(a, ast.Attribute) and isinstance(a.value, ast.Name) and a.value.id in self.vars:
+            place = '(.pattr %d %s)' % (self.var(a.value.id), _strs([a.attr]))
+        else:
+            self.fail('argument of a nested function must be a local or an attribute of a local', c)
+        caps = '[' + ', '.join('(.var %d)' % self.var(v) for v in self.all_caps()) + ']'
+        return '(.procCall %s %s %s %s)' % (target, lean_str(f.id), place, caps)
+
+    def all_caps(self):
+        return self.caps
+
+    def is_nested_call(self, v):
+        return isinstance(v, ast.Call) and isinstance(v.func, ast.Name) and v.func.id in self.all_nested()
+
+    def all_nested(self):
+        return self.nested
+
     def stmt(self, n):
         """-> list of translated statements"""
         if isinstance(n, ast.Pass):
             return ['.pass']
+        if isinstance(n, ast.FunctionDef) and n.name in self.nested and self.nested[n.name] is n:
+            return []
+        if isinstance(n, ast.Expr) and self.is_nested_call(n.value):
+            return [self.proc_call('none', n.value)]
+        if isinstance(n, ast.Assign) and len(n.targets) == 1 and isinstance(n.targets[0], ast.Name) \
+                and self.is_nested_call(n.value):
+            return [self.proc_call('(some %d)' % self.var(n.targets[0].id), n.value)]
+        if isinstance(n, ast.Assign) and len(n.targets) == 1 and isinstance(n.targets[0], ast.Name) \
+                and isinstance(n.value, ast.Call) and isinstance(n.value.func, ast.Attribute) \
+                and n.value.func.attr == 'pop' and isinstance(n.value.func.value, ast.Name) \
+                and self.kinds.get(n.value.func.value.id) == 'dict' and len(n.value.args) == 2 and not n.value.keywords:
+            return ['(.dictPop %d %d %s %s)' % (self.var(n.targets[0].id), self.var(n.value.func.value.id),
+                                              self.expr(n.value.args[0]), self.expr(n.value.args[1]))]
+        if isinstance(n, ast.Assign) and len(n.targets) == 1 and isinstance(n.targets[0], ast.Attribute) \
+                and isinstance(n.targets[0].value, ast.Name) and n.targets[0].value.id in self.inout_params():
+            t = n.targets[0]
+            return ['(.setAttrVar %d %s %s)' % (self.var(t.value.id), _strs([t.attr]), self.expr(n.value))]
         if isinstance(n, ast.Continue):
             return ['.continue']
         if isinstance(n, ast.Break):
@@ -606,7 +718,8 @@ class Func(object):
                 if isinstance(v, ast.Call) and not self.is_value_call(v):
                     pre, st = self.call_stmt('(some %d)' % self.var(t.id), v)
                     return pre + [st]
-                return ['(.assign %d %s)' % (self.var(t.id), self.expr(v))]
+                pre, e = self.hoist(v)
+                return pre + ['(.assign %d %s)' % (self.var(t.id), e)]
             if isinstance(t, ast.Attribute):
                 root, path = _attr_chain(t)
                 if not (isinstance(root, ast.Name) and (root.id == self.me or root.id in self.vars)):
@@ -716,6 +829,9 @@ class Func(object):
                                                   self.block(n.orelse))]
         self.fail('statement outside the fragment', n)
 
+    def inout_params(self):
+        return []
+
     def block(self, stmts):
         parts = []
         for s in stmts:
@@ -726,7 +842,45 @@ class Func(object):
         return out
 
 
-ENABLED = ['selInit', 'selectBy']
+class NestedFunc(Func):
+    """a nested function `def f(p): …`: parameters `p`, then the captured locals of the enclosing function"""
+    allow_nested = False
+
+    def __init__(self, outer, fn):
+        self.cls = outer.cls
+        self.fn = fn
+        self.outer = outer
+        self.name = outer.name + '.' + fn.name
+        self.lname = '%s_%s' % (outer.lname, fn.name.strip('_'))
+        self.me = None
+        self.params = [fn.args.args[0].arg] + list(outer.caps)
+        self.kwparam = None
+        self.vars = list(self.params)
+        self.kinds = {}
+        self.loops = []
+        self.conds = {}
+        self.elses = {}
+        self.nested = {}
+        self.caps = []
+        self.procs = []
+        body = strip_doc(fn.body)
+        self._collect(body)
+        self.defaults = []
+        self.body = self.block(body)
+        if self.loops:
+            self.fail('loop in a nested function')
+
+    def all_caps(self):
+        return self.outer.caps
+
+    def all_nested(self):
+        return self.outer.nested
+
+    def inout_params(self):
+        return [self.params[0]]
+
+
+ENABLED = ['selInit', 'select', 'selectBy', 'findAlternateID']
 
 
 def translate(repo):
@@ -755,6 +909,14 @@ def extract(repo):
                 lines += ['/-- condition of that `while` loop -/', 'def %s_cond : Cond :=\n  %s' % (lp, m.conds[lp]), '']
             if lp in m.elses:
                 lines += ['/-- `else` of that loop -/', 'def %s_else : Block :=\n  %s' % (lp, m.elses[lp]), '']
+        for pname, pf in m.procs:
+            lines += ['/-- nested function `%s` of `%s.%s`, translated; locals: %s -/'
+                      % (pname, cls.name, name, ', '.join('%s=%d' % (v, i) for i, v in enumerate(pf.vars))),
+                      'def %s : Block :=\n  %s' % (pf.lname, pf.body), '']
+        if m.procs:
+            lines += ['/-- the nested functions of `%s.%s` by name -/' % (cls.name, name),
+                      'def %s_procs : List (String × Block) := [%s]'
+                      % (ln, ', '.join('(%s, %s)' % (lean_str(pn), pf.lname) for pn, pf in m.procs)), '']
         lines += ['/-- `%s.%s(%s)`, translated; locals: %s -/'
                   % (cls.name, name, ', '.join([m.me] + m.params),
                      ', '.join('%s=%d' % (v, i) for i, v in enumerate(m.vars)) or '-'),
